@@ -433,11 +433,18 @@ def lex_exhaustive(alphabet, maxlen, mode, prefix=b"", proj="full", oracle="-"):
         mism = []
         if g != m:
             for (i, a, b) in first_diffs(g, m, limit=3):
-                blk = a.split()[0] if " " in a else b.split()[0]
-                gv = [l for l in _run_out([HARNESS] + base + [str(first), proj, "-", blk]) if not l.startswith("NONTRIV ")]
+                label = a.split()[0] if " " in a else b.split()[0]
+                # a hash line is labelled with the number of blocks completed (1-based); the verbose mode selects blocks 0-based
+                blk = str(int(label) - 1)
+                gv = [l for l in _run_out([HARNESS] + base + [str(first), proj, "-", blk]) if not l.startswith("NONTRIV ") and not l.startswith("FAIL ")]
                 mv = _run_out([DRIVER] + base + [str(first), proj, "-", blk])
+                found = False
                 for (_, x, y) in first_diffs(gv, mv, limit=3):
                     mism.append((x.split(" => ")[0], x, y))
+                    found = True
+                if not found:
+                    # the block hashes differ but no differing line was located: still a broken correspondence, never silently dropped
+                    mism.append(("block-%s-first-%s" % (blk, first), "hash " + a, "hash " + b))
         return fails, mism, nt3, nt4
 
     with ThreadPoolExecutor(max_workers=16) as ex:
